@@ -72,8 +72,22 @@
 //	      top of containers and nested in groupings, decoy local groupings of every name that
 //	      cutting the own prefix out of a reference would leave).
 //
+//	(viii) however the schema was loaded (disk.go): the on-demand family (harness/gen/c06path.go: chains of nested uses
+//	      through 2-4 modules that only import / include statements reach - top uses b:g1, g1 uses c:g2,
+//	      g2 uses d:g3 - groupings in submodules of such modules, hops through an own submodule's
+//	      grouping, modules importing each other, a second handed-over module using a grouping from the
+//	      middle), every multi-file deep chain, a fifth of the seeded base variants, a tenth of the
+//	      mutated ones and the corpus cases with a `disk` table are, after the ordinary all-explicit
+//	      run, run again in the same worker from files on disk: only a set of root modules is handed to
+//	      Modules.Parse / Modules.Read, the other files lie on the search path (one directory, dir/...,
+//	      two directories, or the directory Read adds by itself) and are fetched by Process when an
+//	      import or include reaches them. The outcome (trees, or error set) must be that of the
+//	      all-explicit run - which is the one compared with the Lean model - and on the on-demand value
+//	      the oracles of (ii) and (iii) hold as they stand (binding, copy against ToEntry(grouping),
+//	      reference expansion, Extra / Exts law, sharing walk, a use added after Process).
+//
 // Inputs: corpus/C06/*.json first (hand-written witnesses with a table of expected Extra / Exts),
-// then the deep chains, then the revision families, then the seeded sets. Any failure of (ii), (iii), (iv) or (v) is a "spec" disagreement with verdict "violates".
+// then the deep chains, then the revision families, then the scope families, the on-demand family, then the seeded sets. Any failure of (ii), (iii), (iv), (v) or (viii) is a "spec" disagreement with verdict "violates".
 package main
 
 import (
@@ -83,6 +97,7 @@ import (
 	"path/filepath"
 	"reflect"
 	"sort"
+	"strconv"
 	"strings"
 	"unsafe"
 
@@ -197,9 +212,9 @@ func indexAST(ms *yang.Modules) astIndex {
 		walkAST(m, func(n yang.Node) {
 			switch x := n.(type) {
 			case *yang.Uses:
-				ix.uses[x.Statement().Location()] = x
+				ix.uses[locOf(x)] = x
 			case *yang.Grouping:
-				ix.groupings[x.Statement().Location()] = x
+				ix.groupings[locOf(x)] = x
 			}
 		})
 	}
@@ -376,11 +391,16 @@ func firstDiff(a, b []string) string {
 
 // ---- the oracle ---------------------------------------------------------------------------
 
-type findings struct{ out *rescorr.GoOut }
+// findings collects what the oracles report; pre / post frame the findings of an on-demand run
+// (disk.go) with how the set was loaded and the clause.
+type findings struct {
+	out       *rescorr.GoOut
+	pre, post string
+}
 
 func (f findings) add(format string, a ...any) {
 	if len(f.out.Findings) < 12 {
-		f.out.Findings = append(f.out.Findings, fmt.Sprintf(format, a...))
+		f.out.Findings = append(f.out.Findings, f.pre+fmt.Sprintf(format, a...)+f.post)
 	}
 }
 
@@ -468,7 +488,7 @@ func checkBinding(k know, ix astIndex, f findings) {
 		g := yang.FindGrouping(n, n.Name, map[string]bool{})
 		got := ""
 		if g != nil {
-			got = g.Statement().Location()
+			got = locOf(g)
 		}
 		if got != u.GLoc {
 			f.add("binding: uses %s at %s (%s) binds to the grouping at %q, the scoping rules say %q%s", u.Ref, u.Loc, u.Site, got, u.GLoc, clause)
@@ -1107,10 +1127,11 @@ func oracle(c rescorr.Case, ms *yang.Modules, errs []error, out *rescorr.GoOut) 
 	if err := json.Unmarshal([]byte(c.Extra["c06"]), &k); err != nil || k.Variant == "" {
 		return
 	}
-	f := findings{out}
+	f := findings{out: out}
 	ix := indexAST(ms)
 	if k.Variant == "corpus" {
 		checkBinding(k, ix, f)
+		checkOnDemand(c, k, ms, out.Dump, out)
 		if len(errs) == 0 {
 			if k.PreConvert {
 				checkPreConvert(c, k, out.Dump, ix, f)
@@ -1122,6 +1143,8 @@ func oracle(c rescorr.Case, ms *yang.Modules, errs []error, out *rescorr.GoOut) 
 		return
 	}
 	checkBinding(k, ix, f)
+	// (viii) the same set with only some modules handed over, the rest found on the search path
+	checkOnDemand(c, k, ms, out.Dump, out)
 	if len(errs) > 0 {
 		return
 	}
@@ -1179,6 +1202,7 @@ func main() {
 	var maxNest int
 	var extrasNodes, extrasUses, capSensitive, preConverted, oldRevs int64
 	distinct := lib.NewDistinct()
+	disk := &diskTally{layouts: map[string]int64{}, skipped: map[string]int64{}}
 	var clean, cleanMut, withErr, outside, skipped, sitesChecked, untouchedChecked, total int64
 	// corpus first: hand-written witnesses (corpus/C06/*.json) with a table of expected Extra / Exts
 	var corpusN, corpusClean int64
@@ -1211,6 +1235,8 @@ func main() {
 				OldRev     *gen.C06OldRev `json:"old_rev"`
 				// "rev": a revision family (findings name the clause)
 				Family string `json:"family"`
+				// (viii) on-demand runs: per entry only the roots are handed over, the other texts lie on the search path
+				Disk []diskVariant `json:"disk"`
 			}
 			if err := json.Unmarshal(raw, &cc); err != nil || len(cc.Names) == 0 {
 				lib.Fatal("corpus file %s: %v", p, err)
@@ -1221,11 +1247,16 @@ func main() {
 				kn = know{Variant: "mut", Sites: cc.Sites, BaseNames: cc.BaseNames, BaseTexts: cc.BaseTexts, Uses: cc.Uses, AugNodes: cc.AugNodes}
 			}
 			kb, _ := json.Marshal(kn)
-			cases = append(cases, rescorr.Case{Names: cc.Names, Texts: cc.Texts, Extra: map[string]string{"c06": string(kb), "origin": "corpus/" + filepath.Base(p),
-				"clause": know{Family: cc.Family}.clause()}})
+			extra := map[string]string{"c06": string(kb), "origin": "corpus/" + filepath.Base(p), "clause": know{Family: cc.Family}.clause()}
+			if len(cc.Disk) > 0 {
+				db, _ := json.Marshal(cc.Disk)
+				extra["c06_disk"] = string(db)
+			}
+			cases = append(cases, rescorr.Case{Names: cc.Names, Texts: cc.Texts, Extra: extra})
 		}
 		for _, o := range rescorr.RunAll(cases, f) {
 			corpusN++
+			disk.tally(o)
 			origin := o.Case.Extra["origin"]
 			switch {
 			case o.Crashed:
@@ -1265,11 +1296,17 @@ func main() {
 		for i, sp := range gen.C06ChainFamily(f.Thorough()) {
 			gc := gen.C06Chain(sp)
 			kb, _ := json.Marshal(know{Variant: "base", Uses: gc.Uses, Sites: gc.Sites, Expect: gc.Expect, Late: gc.Late, PreConvert: i%2 == 0})
-			cases = append(cases, rescorr.Case{Names: gc.Names, Texts: gc.Texts, Extra: map[string]string{"c06": string(kb), "origin": sp.String()}})
+			extra := map[string]string{"c06": string(kb), "origin": sp.String()}
+			if len(gc.Names) > 1 {
+				// (viii) only module a handed over: the other modules and all submodules are found on the path
+				extra["c06_disk"] = diskVariants([][]int{{0}}, i)
+			}
+			cases = append(cases, rescorr.Case{Names: gc.Names, Texts: gc.Texts, Extra: extra})
 			specs = append(specs, sp)
 		}
 		for i, o := range rescorr.RunAll(cases, f) {
 			chainN++
+			disk.tally(o)
 			origin := o.Case.Extra["origin"]
 			if int64(specs[i].N) > chainMaxDepth {
 				chainMaxDepth = int64(specs[i].N)
@@ -1497,6 +1534,75 @@ func main() {
 		}
 		total += scopeN
 	}
+	// then the on-demand family (gen/c06path.go): chains of nested uses through modules that only the
+	// import / include statements of a handed-over module reach; every case all-explicit (model compared)
+	// and, in the worker, once per root set from files on disk (disk.go)
+	var onN, onClean, onOutside, onSites int64
+	onDist := map[string]int64{}
+	if want("ondemand") {
+		non := 260
+		if f.Thorough() {
+			non = 6000
+		}
+		var cases []rescorr.Case
+		for i := 0; i < non; i++ {
+			gc, info := gen.C06OnDemand(f.Rand(70000000+i), i)
+			kb, _ := json.Marshal(know{Variant: "base", Family: "ondemand", Uses: gc.Uses, Sites: gc.Sites, Expect: gc.Expect, Late: gc.Late, PreConvert: i%4 == 0})
+			cases = append(cases, rescorr.Case{Names: gc.Names, Texts: gc.Texts, Extra: map[string]string{"c06": string(kb),
+				"origin": fmt.Sprintf("on-demand family %d", i), "c06_disk": diskVariants(info.RootSets, i)}})
+			onSites += int64(len(gc.Sites))
+			onDist[fmt.Sprintf("chain_of_%d_modules_below_the_handed-over_one", info.Depth)]++
+			onDist["levels_"+info.Pattern]++
+			onDist["imports_"+info.Topology]++
+			onDist["levels_whose_grouping_lives_in_a_submodule"] += int64(info.SubGroupings)
+			onDist["levels_hopping_through_a_grouping_of_an_own_submodule"] += int64(info.IncludeHops)
+			onDist["sites_in_modules_found_on_demand"] += int64(info.OwnSites)
+			onDist["root_sets"] += int64(len(info.RootSets))
+			if info.SecondRoot {
+				onDist["with_a_second_handed-over_module_using_a_grouping_of_some_level"]++
+			}
+			if info.TopSub {
+				onDist["handed-over_module_with_a_submodule_found_on_demand"]++
+			}
+		}
+		for _, o := range rescorr.RunAll(cases, f) {
+			onN++
+			disk.tally(o)
+			origin := o.Case.Extra["origin"]
+			switch {
+			case o.Crashed:
+				res.AddDisagreement(lib.Disagreement{Kind: "crash", Input: o.Case.Texts, Go: o.CrashMsg, SpecVerdict: "violates",
+					What: origin + ": goyang crashed or hung: " + firstLine(o.CrashMsg), Replay: o.Case})
+				continue
+			case o.Skipped != "":
+				res.AddDisagreement(lib.Disagreement{Kind: "obligation", Input: o.Case.Texts, Go: o.Go.ParseErr, SpecVerdict: "",
+					What: origin + ": not accepted by Modules.Parse (" + o.Go.ParseErr + ")", Replay: o.Case})
+				continue
+			}
+			if len(o.Go.Findings) > 0 {
+				res.AddDisagreement(lib.Disagreement{Kind: "spec", Input: o.Case.Texts, Go: o.Go.Findings, SpecVerdict: "violates",
+					What: origin + ": " + o.Go.Findings[0], Replay: o.Case})
+			}
+			if o.Outside != "" {
+				onOutside++
+			} else {
+				g := lib.Project(o.Go.Dump, keys, true)
+				md := lib.Project(o.Model, keys, true)
+				if d := rescorr.Diff(g, md); d != "" {
+					res.AddDisagreement(lib.Disagreement{Kind: "correspondence", Input: o.Case.Texts, Go: g, Model: md, SpecVerdict: "",
+						What: origin + ": resolver differs from the model: " + d, Replay: o.Case})
+				}
+			}
+			if rescorr.HasErrors(o.Go.Dump) {
+				res.AddDisagreement(lib.Disagreement{Kind: "spec", Input: o.Case.Texts, Go: o.Go.Dump, SpecVerdict: "violates",
+					What: origin + ": a set without deliberate faults does not process cleanly: " + o.Go.Dump[0], Replay: o.Case})
+				continue
+			}
+			onClean++
+			distinct.Add(strings.Join(o.Case.Texts, "\x00"))
+		}
+		total += onN
+	}
 	const batch = 4000
 	if !want("seeded") {
 		n = 0
@@ -1537,7 +1643,12 @@ func main() {
 			if gc.OldRev != nil {
 				oldRevs++
 			}
-			cases = append(cases, rescorr.Case{Names: gc.Names, Texts: gc.Texts, Extra: map[string]string{"c06": string(kb)}})
+			extra := map[string]string{"c06": string(kb)}
+			if i%5 == 1 && len(gc.Names) > 1 {
+				// (viii) the worker picks a set of modules that reaches every file and loads only those
+				extra["c06_disk_auto"] = strconv.Itoa(i)
+			}
+			cases = append(cases, rescorr.Case{Names: gc.Names, Texts: gc.Texts, Extra: extra})
 			metas = append(metas, meta{"base", len(gc.Sites), multi, 0, gc})
 			if gc.MutTexts != nil {
 				unt := 0
@@ -1553,7 +1664,11 @@ func main() {
 					mutProps[k]++
 				}
 				km, _ := json.Marshal(know{Variant: "mut", Uses: gc.Uses, Sites: gc.Sites, BaseNames: gc.Names, BaseTexts: gc.Texts, Late: gc.Late, AugNodes: gc.AugNodes})
-				cases = append(cases, rescorr.Case{Names: gc.MutNames, Texts: gc.MutTexts, Extra: map[string]string{"c06": string(km)}})
+				mextra := map[string]string{"c06": string(km)}
+				if i%10 == 2 && len(gc.MutNames) > 1 {
+					mextra["c06_disk_auto"] = strconv.Itoa(i)
+				}
+				cases = append(cases, rescorr.Case{Names: gc.MutNames, Texts: gc.MutTexts, Extra: mextra})
 				metas = append(metas, meta{"mut", len(gc.Sites), multi, unt, gc})
 			}
 		}
@@ -1561,6 +1676,7 @@ func main() {
 		outs := rescorr.RunAll(cases, f)
 		for i, o := range outs {
 			m := metas[i]
+			disk.tally(o)
 			switch {
 			case o.Crashed:
 				res.AddDisagreement(lib.Disagreement{Kind: "crash", Input: o.Case.Texts, Go: o.CrashMsg, SpecVerdict: "violates",
@@ -1612,12 +1728,15 @@ func main() {
 	}
 	res.Evaluations = total
 	res.DistinctNontrivial = distinct.Len()
-	res.Rule = "corpus/C06 (witnesses of D62 and of the seeded changes C06-c1, C06-d2, C06-e1, C06-g2, C06-k22, C06-l21, C06-l22), then a deterministic family of deep chains g0 uses g1 ... uses gN (N up to 200 quick, 300 thorough; " +
+	res.Rule = "corpus/C06 (witnesses of D62 and of the seeded changes C06-c1, C06-d2, C06-e1, C06-g2, C06-k22, C06-l21, C06-l22, C06-m21), then a deterministic family of deep chains g0 uses g1 ... uses gN (N up to 200 quick, 300 thorough; " +
 		"top-down / bottom-up / shuffled; one module / submodules / imported modules / alternating; five kinds of instantiation site), then revision families (harness/gen/c06rev.go: 2-3 loaded revisions of the defining module with differing same-named groupings, " +
 		"importers designating different revisions by revision-date in different modules / one module under two prefixes / a submodule against its module / through another importer's grouping, next to imports without revision-date; " +
 		"144 systematic cases = 6 ordered pairs of designations x 24 load orders, then seeded ones in shuffled load order), then the scope families (harness/gen/c06scope.go: typedef scopes nested 2-4 levels inside groupings with per-level subsets of a three-name typedef pool, " +
 		"references from every level to every visible level, decoy typedefs in the using scopes, sites in the same module / another module / rpc input and output / notification / list / wrapping grouping / augment body, the resolved type's kind/range/length compared per node; " +
-		"prefix pools: own and import prefixes that contain / end with / begin with one another, grouping names equal to or containing a prefix, decoy local groupings of every spliced name), then seeded grouping-heavy module sets (harness/gen/c06.go: 1-3 modules, 0-3 submodules each with include chains, groupings at " +
+		"prefix pools: own and import prefixes that contain / end with / begin with one another, grouping names equal to or containing a prefix, decoy local groupings of every spliced name), then the on-demand family (harness/gen/c06path.go: a handed-over module uses b:g1, g1 uses c:g2 ... through 2-4 modules that only import / include statements reach, levels in distinct modules or zigzag between two, " +
+		"groupings at module level or in a submodule that carries the next import itself, hops through an unprefixed grouping of an own submodule, imports as a line / every file importing every module / with back imports, typedefs beside each grouping, sites of their own in the modules found on demand, " +
+		"optionally a second handed-over module using a grouping from the middle; each case all-explicit against the model and per root set from files on disk: layouts flat / dir/... / two directories / Read's own directory, roots by Parse or Read(path); " +
+		"oracle: same outcome as all-explicit, binding, copies, reference expansion, sharing, late use), the same files-on-disk re-run on every multi-file deep chain (only module a handed over), on a fifth of the seeded base variants and a tenth of the mutated ones (roots picked by the worker: fewest modules that reach every file), then seeded grouping-heavy module sets (harness/gen/c06.go: 1-3 modules, 0-3 submodules each with include chains, groupings at " +
 		"module level, in submodules, in containers/lists/operations/notifications and inside groupings, tiny name pools so that shadowing is " +
 		"frequent, submodules whose belongs-to prefix differs from the module's own prefix and which import another module under the " +
 		"module's own prefix or a sibling's belongs-to prefix, nested uses, typedef t and identity idn defined per module so that resolving in the wrong scope shows, every reachable " +
@@ -1647,6 +1766,17 @@ func main() {
 	res.Distribution["scope_family_cases_outside_model"] = scopeOutside
 	res.Distribution["scope_family_instances_compared"] = scopeSites
 	res.Distribution["scope_family_shapes"] = scopeDist
+	res.Distribution["on_demand_family_cases"] = onN
+	res.Distribution["on_demand_family_cases_clean"] = onClean
+	res.Distribution["on_demand_family_cases_outside_model"] = onOutside
+	res.Distribution["on_demand_family_instances_compared"] = onSites
+	res.Distribution["on_demand_family_shapes"] = onDist
+	res.Distribution["files_on_disk_runs(all families)"] = disk.runs
+	res.Distribution["files_on_disk_runs_clean_with_all_oracles"] = disk.clean
+	res.Distribution["files_on_disk_runs_rejected_like_the_explicit_run"] = disk.rejected
+	res.Distribution["files_on_disk_files_found_on_demand"] = disk.onDemand
+	res.Distribution["files_on_disk_runs_by_layout/hand"] = disk.layouts
+	res.Distribution["files_on_disk_variants_skipped"] = disk.skipped
 	res.Distribution["corpus_cases"] = corpusN
 	res.Distribution["corpus_cases_clean"] = corpusClean
 	res.Distribution["clean_base_variants"] = clean
@@ -1664,7 +1794,7 @@ func main() {
 }
 
 // want: C06_FAMILIES (a debugging aid; unset = every family) restricts the run to the named input
-// families: corpus, chains, rev, scope, seeded.
+// families: corpus, chains, rev, scope, ondemand, seeded.
 func want(family string) bool {
 	v := os.Getenv("C06_FAMILIES")
 	if v == "" {
